@@ -53,6 +53,13 @@ Proof. intros t n smp Hw s x tl He. eapply rt_never_clean; [apply wb_lwesample|a
 Print Assumptions C18_truncated_sample_never_clean.
 
 (* mistyped input *)
+(* a text section is closed only by the exact END line of its own title: whenever the section reader returns, the last line it
+   consumed is "-----END <title>-----" with the title of the BEGIN line (a mistyped or foreign END line never closes a section) *)
+Theorem C18_section_closed_only_by_its_own_end : forall t s v s', read_section t s = Ret v s' ->
+  exists s0, get_line t s0 = (END_ ++ fst v ++ DASHES, s').
+Proof. exact read_section_needs_exact_end. Qed.
+Print Assumptions C18_section_closed_only_by_its_own_end.
+
 Theorem C18_wrong_title_aborts : forall T sec, list_eqb (fst sec) T = false -> forall s B (f : props -> prog B),
   run (pbind (expect_title T sec) f) s = Stop Abort.
 Proof. intros. now apply wrong_title_aborts. Qed.
